@@ -12,6 +12,8 @@ pub struct ExpectedRecord {
     pub variant: &'static str,
     /// The raw `expected` vector of the generated parser (empty for variants without one)
     pub expected: Vec<String>,
+    /// Byte offsets (start, end) of the offending token / error location, `None` for `User`
+    pub span: Option<(usize, usize)>,
 }
 
 /// One observation of the iteration order of a hash container, taken right before the
@@ -32,7 +34,17 @@ pub(crate) fn record_expected(variant: &'static str, expected: &[String]) {
         e.borrow_mut().push(ExpectedRecord {
             variant,
             expected: expected.to_vec(),
+            span: None,
         })
+    });
+}
+
+/// Attach the source span of the parse error to the record pushed last.
+pub(crate) fn record_span(span: Option<(usize, usize)>) {
+    EXPECTED.with(|e| {
+        if let Some(last) = e.borrow_mut().last_mut() {
+            last.span = span;
+        }
     });
 }
 
